@@ -409,6 +409,12 @@ def chk_purity(T, v, M, rng):
                     how = 'accepted'
                 except error.PyAsn1Error:
                     how = 'refused'
+                except OverflowError as ex:
+                    if name != 'native':
+                        out.append(fail('purity', T, v, 'encoding (%s) an incomplete record raised OverflowError: %s' % (
+                            name, str(ex)[:80])))
+                        continue
+                    how = 'refused'                                # a REAL member beyond the float range has no Python float
                 except Exception as ex:
                     out.append(fail('purity', T, v, 'encoding (%s) an incomplete record raised %s: %s' % (
                         name, type(ex).__name__, str(ex)[:80])))
